@@ -128,7 +128,8 @@ def r2_operand_order(ctx):
             blk = P.block_of(a) or []
             rebound = [s for s in blk if s is not a for x in ast.walk(s) if isinstance(x, (ast.Assign, ast.AugAssign, ast.AnnAssign, ast.NamedExpr))
                        for t in (P.store_targets(x) if not isinstance(x, ast.NamedExpr) else [x.target]) for n in ast.walk(t) if isinstance(n, ast.Name) and n.id in names]
-            ctx.ob("C15.R2", f"{OPT}::operands {names} reach the rewritten node unchanged (line {a.lineno})", OPT, a.lineno, not rebound,
+            guard = next((P.un(x.test) for x in P.ancestors(a) if isinstance(x, ast.If)), "top")
+            ctx.ob("C15.R2", f"{OPT}::operands {names} reach the rewritten node unchanged (under `{guard[:50]}`)", OPT, a.lineno, not rebound,
                    "" if not rebound else f"`{P.un(rebound[0])[:70]}` rebinds an operand before the rewritten node is built: the operand expression itself is rewritten, which no table of this checker has reviewed",
                    witness="(operator/getitem v (python/slice n)) must stay v[slice(n)] == v[:n]")
 
